@@ -734,6 +734,26 @@ func (e *Enc) compileCallExpr(c *SpecCtx, x *Expr) CE {
 		}
 		return CE{T: fmt.Sprintf("(forall ((%s Int)) (! (=> %s (and (= (select %s %s) (select %s %s)) (= (select %s %s) (select %s %s)))) :pattern ((select %s %s)) :pattern ((select %s %s))))",
 			q, and(neq...), dom, q, dom0, q, val, q, val0, q, dom, q, val, q), Typ: tBool}
+	case "premaps": // premaps("map[K]V"): every map of that type that existed in old() is as it was (maps made since are unconstrained)
+		argn(1)
+		t := e.lookupType(x.Args[0].Lit)
+		if t == nil {
+			fail("%s: premaps: unknown type %s", c.what, x.Args[0].Lit)
+		}
+		mt, ok := t.Underlying().(*types.Map)
+		if !ok {
+			fail("%s: premaps of non-map %s", c.what, t)
+		}
+		q := e.B.freshName("q.m")
+		dom := e.get(c.st, e.mapKey(mt, "dom"), e.mapSort(mt, "dom"))
+		val := e.get(c.st, e.mapKey(mt, "val"), e.mapSort(mt, "val"))
+		dom0 := e.get(c.old, e.mapKey(mt, "dom"), e.mapSort(mt, "dom"))
+		val0 := e.get(c.old, e.mapKey(mt, "val"), e.mapSort(mt, "val"))
+		if dom == dom0 && val == val0 {
+			return CE{T: "true", Typ: tBool}
+		}
+		return CE{T: fmt.Sprintf("(forall ((%s Int)) (! (=> (>= %s %s) (and (= (select %s %s) (select %s %s)) (= (select %s %s) (select %s %s)))) :pattern ((select %s %s)) :pattern ((select %s %s))))",
+			q, q, e.alloc(c.old), dom, q, dom0, q, val, q, val0, q, dom, q, val, q), Typ: tBool}
 	case "min", "max":
 		argn(2)
 		a, b := e.compile(c, x.Args[0]), e.compile(c, x.Args[1])
@@ -813,6 +833,18 @@ func (e *Enc) compileCallExpr(c *SpecCtx, x *Expr) CE {
 			fail("%s: unknown type %s", c.what, tn)
 		}
 		return CE{T: fmt.Sprintf("(= (ity %s) %d)", a.T, e.B.typeID(t)), Typ: tBool}
+	case "implements": // implements(x, "interface{ Abort() error }"): what a comma-ok assertion of x to that interface type answers
+		argn(2)
+		a := e.compile(c, x.Args[0])
+		t := e.lookupType(x.Args[1].Lit)
+		if t == nil {
+			fail("%s: unknown type %s", c.what, x.Args[1].Lit)
+		}
+		if _, ok := t.Underlying().(*types.Interface); !ok {
+			fail("%s: implements() needs an interface type, got %s", c.what, t)
+		}
+		e.B.declTop("implements", "(declare-fun implements (Int Int) Bool)")
+		return CE{T: fmt.Sprintf("(and (not (= (ity %s) 0)) (implements (ity %s) %d))", a.T, a.T, e.B.typeID(t)), Typ: tBool}
 	case "ival": // integer payload of an interface value
 		argn(1)
 		a := e.compile(c, x.Args[0])
@@ -880,6 +912,13 @@ func (e *Enc) compileCallExpr(c *SpecCtx, x *Expr) CE {
 			}
 		}
 		fail("%s: ref() of %s", c.what, a.Typ)
+	case "refof": // refof(x): identity of the object that holds the variable x (a local whose address is taken, *p, ...)
+		argn(1)
+		a := e.compile(c, x.Args[0])
+		if a.P != nil && a.P.Kind == PDeref && a.P.Ptr != "" {
+			return CE{T: "(pref " + a.P.Ptr + ")", Typ: tMath}
+		}
+		fail("%s: refof() of something that is not a memory cell: %s", c.what, x.Args[0])
 	case "arr": // arr(s): identity of a slice's backing array (0 for nil)
 		argn(1)
 		a := e.compile(c, x.Args[0])
@@ -889,6 +928,15 @@ func (e *Enc) compileCallExpr(c *SpecCtx, x *Expr) CE {
 			}
 		}
 		return CE{T: "(sarr " + a.T + ")", Typ: tMath}
+	case "off": // off(s): where a slice starts inside its backing array
+		argn(1)
+		a := e.compile(c, x.Args[0])
+		if a.Typ != nil {
+			if _, ok := a.Typ.Underlying().(*types.Pointer); ok {
+				a = e.deref(c, a)
+			}
+		}
+		return CE{T: "(soff " + a.T + ")", Typ: tMath}
 	case "recvd": // recvd(ch): completed receives on a channel
 		argn(1)
 		a := e.compile(c, x.Args[0])
